@@ -31,7 +31,8 @@ class C03(rowgen.RowGenProp):
 
         # through the Bot: every change rung - also the first one after a second Go - is a legal change of the
         # row rung before it
-        yield from _c05.PROP.world_cases(rng, 25 if tier == "quick" else 250)
+        # (no custom start rows here: a method restarted from its start row after rounds is a jump by design)
+        yield from _c05.PROP.world_cases(rng, 25 if tier == "quick" else 250, long_start_p=0.0)
 
     def impl(self, req):
         return _c05.PROP.impl(req) if req["k"] == "world" else super().impl(req)
